@@ -8,6 +8,18 @@ CHECKS = {
  "C04": ("runtime monitor: harness flattening / min-max fold / lattice-law oracle over generated geometries and box triples",
          "Every generated geometry (8 types, empty members, nested collections, special float values) is run through Points/Len/Bounds under recover() and compared with an independent flattening and min/max fold; box pairs/triples are judged against the join/overlap/intersection model. Held on the executions produced, not a proof.",
          "Trusts the harness's own flattening (30 lines) and IEEE min/max; NaN coordinates and non-canonical empty boxes are outside the quantifier.", "§4 C04"),
+ "C05": ("runtime monitor: differential against an independent OGC WKB serializer + bitwise round-trip oracle",
+         "Every generated geometry (7 types, arbitrary 64-bit coordinate patterns, empty members, collections nested to depth 6/50) is encoded in both byte orders and compared byte-for-byte with an independently written OGC 06-103r4 serializer; reference bytes (uniform and mixed byte order per element) are decoded and compared bitwise; streams and the hex codec are checked the same way.",
+         "Trusts the harness's 100-line reference serializer and its reading of the OGC layout; 2-D geometries only.", "§4 C05"),
+ "C06": ("runtime monitor: bitwise round-trip oracle + independent RFC 7946 shape walk of the JSON text",
+         "Every generated geometry (6 types, finite bit-pattern coordinates, empty later members) is encoded, its text is walked independently (type name, nesting depth, [x,y] arity and order, exact numeral value) and decoded back to a bitwise-equal geometry; unsupported types and non-finite coordinates must produce errors.",
+         "Trusts encoding/json as tokenizer for the shape walk; quantifier restricted to first-member-non-empty geometries as the property states.", "§4 C06"),
+ "C07": ("runtime monitor: panic monitor + exact heap-allocation accounting (ReadMemStats deltas) + RLIMIT_AS child processes + re-encode fixpoint over mutation families",
+         "Hostile inputs (every truncation, bit flips, every count field inflated up to 2^32-1, bad type/byte-order codes, 7000-level nesting, random bytes, malformed hex, grammar-generated JSON with arbitrary coordinates shapes, hand-built Geometry values) are fed to the decoders; each call must return a well-formed geometry or an error, allocate <= K*len+C bytes, never panic or kill the process, and successful decodes must be fixpoints of encode/decode.",
+         "'Bounded by a constant multiple' is decided in the restated form dAlloc <= 64*len+64KiB (WKB/hex), 256*len+64KiB (GeoJSON); inputs <= 64 KiB.", "§4 C07"),
+ "C17": ("runtime monitor: independent OGC WKT recursive-descent parser as oracle, bitwise comparison",
+         "The text produced for every generated geometry of the five supported types must be accepted by an independently written strict OGC tagged-text parser and parse to a bitwise-identical geometry; MultiPoint, GeometryCollection and *Bounds must be rejected with an error.",
+         "Trusts the harness's 200-line WKT parser and strconv.ParseFloat; members with >= 1 vertex only (as the property states).", "§4 C17"),
 }
 PENDING = {}
 ALL = ["C%02d" % i for i in range(1, 21)]
